@@ -9,18 +9,31 @@ import c04_loaders
 PROP = "C04"
 PROP_FILES = sorted(os.path.relpath(p, common.COQ) for p in glob.glob(os.path.join(common.COQ, "props", "C04*.v")))
 TRUSTED = [
-    "the parser models of coq/model (page/atom/block/chunk/tag readers) are hand-written mirrors of mutagen's loaders, tied by outcome-class correspondence on the malformed stream",
+    "the loader mirrors coq/model/Parse_*.v (Musepack, WavPack, SMF, VComment, OggVorbisInfo on Model.Ogg.page_parse, _APEv2Data, ID3Header, MP4 Atom/Atoms, "
+    "TrueAudio/MonkeysAudio/OptimFROG headers) are hand-written, tied to /repo by outcome-class + decoded-field correspondence on the malformed stream and field sweeps",
+    "the file object of the mirrors is CPython's BytesIO (read/seek/tell incl. ValueError on negative absolute seek, clamping of relative seeks, OverflowError beyond "
+    "ssize_t) -- Model.Parse_base; real files differ (negative seek is an OSError, which every mirrored loader converts to its error class)",
+    "c04_input (theorem hypothesis): the input is a list of bytes (0..255) shorter than 2^62; Python floats, text decoding with errors='replace' and AtomError "
+    "(represented by EAssert) are outside Base.Py: the float/utf-8 steps that cannot raise are not modelled, the one float conversion that can (SMF) is",
     "parsers without a model are explored by the direct oracle only -- a search, not a proof",
 ]
-RULE = ("direct oracle: every sample of tests/data (< 200 KB) and small synthesised files are mutated (bit/byte flips, truncation at every offset class, "
+RULE = ("correspondence: for every loader with a Coq mirror (MODELLED) the fuzzer's own malformed stream (seeds()/mutate over the loader's own samples, "
+        "synthesised seeds and now and then a wrong-format sample) plus targeted sweeps (every header offset set to 0, 1, 2, 2^k-1, 2^k, 2^31, 2^32-1 in 1/2/4-byte "
+        "fields of both byte orders; truncation at every offset up to 200; var-int / size / count fields at every size class incl. the 2^63 and float-conversion "
+        "limits; nesting depth around the limit) is fed to the mirrored function on a BytesIO and to the extracted mirror; outcome class (ok / MutagenError / "
+        "exception class / timeout-fuel) and, when both accept, the decoded fields (floats recomputed from the model's exact integers, compared as float.hex) "
+        "must agree; any non-MutagenError outcome of the implementation is a violation with that input; a vm_compute shard re-evaluates 6 inputs per loader. "
+        "direct oracle: every sample of tests/data (< 200 KB) and small synthesised files are mutated (bit/byte flips, truncation at every offset class, "
         "splice from another sample, length/count/offset field extremes 0, 1, 2^k-1, 2^31, 2^32-1 in both byte orders at header offsets, zero runs, insertions) "
         "and fed to the opener of their own type, mutagen.File, ID3, APEv2 and random further openers (all 32 upstream openers in thorough); each opened object is "
         "then saved and deleted through the same stream; the contract of fuzzing/fuzztools.py is checked: only MutagenError may escape (File may return None), "
         "the caller's stream stays open, a 5 s watchdog bounds time, and file-object calls / bytes read are bounded by a polynomial in the input size. "
         "non-trivial = the input differs from its seed and was accepted or rejected past the first header check; distinct by (opener, input hash)")
 MANIFEST = {
-    "text": "partial: totality theorems (every byte string yields Ok or a MutagenError-class rejection, fuel never exhausted, fuel linear in the input) for the "
-            "parser models that exist; all other parsers, and the open-save-delete contract as a whole, by mutation fuzzing with a watchdog over all openers",
+    "text": "partial: totality theorems (every byte string yields Ok or a MutagenError-class rejection, fuel never exhausted, fuel a*len+b) for the exception-faithful "
+            "mirrors of MusepackInfo, WavPackInfo, SMF, VComment.load, OggPage+OggVorbisInfo (under OggFileType.load's mapping), _APEv2Data, ID3Header, MP4 Atom/Atoms "
+            "(under MP4.load's mapping) and the TrueAudio/MonkeysAudio/OptimFROG header readers; all other parsers, the tag-level parsers behind these headers, and the "
+            "open-save-delete contract as a whole, by structured + mutation fuzzing with a watchdog over all openers",
     "note": "Not covered by theorem: parsers without an exception-faithful model in this commit (listed in the evidence as families_without_theorem); they are "
             "explored by the direct oracle, which is a search. Allocation is bounded by construction in the model (reads return at most what the file holds); "
             "in the implementation it is observed through the bytes-read counter.",
@@ -139,7 +152,18 @@ OPENER_NAMES = ["MP3", "TrueAudio", "OggTheora", "OggSpeex", "OggVorbis", "OggFL
 
 # which of the 32 openers run a loader that has a totality theorem (the theorem covers that loader, not the
 # opener's whole open-save-delete path)
-OPENER_THEOREMS = {"Musepack": ["Musepack"]}
+OPENER_THEOREMS = {
+    "Musepack": ["Musepack", "APEv2Data"], "WavPack": ["WavPack", "APEv2Data"], "SMF": ["SMF"],
+    "OggVorbis": ["OggVorbisInfo", "VComment"],
+    "OggTheora": ["OggTheoraInfo", "VComment"], "OggSpeex": ["OggSpeexInfo", "VComment"], "OggOpus": ["OggOpusInfo", "VComment"], "OggFLAC": [],
+    "APEv2File": ["APEv2Data"], "APEv2": ["APEv2Data"],
+    "MonkeysAudio": ["MonkeysAudio", "APEv2Data"], "OptimFROG": ["OptimFROG", "APEv2Data"], "TAK": ["APEv2Data"],
+    "TrueAudio": ["TrueAudio", "ID3Header"], "EasyTrueAudio": ["TrueAudio", "ID3Header"],
+    "MP3": ["ID3Header"], "EasyMP3": ["ID3Header"], "ID3FileType": ["ID3Header"], "EasyID3FileType": ["ID3Header"],
+    "ID3": ["ID3Header"], "EasyID3": ["ID3Header"],
+    "MP4": ["MP4Atoms"], "EasyMP4": ["MP4Atoms"],
+}
+OPENER_THEOREMS = {k: v for k, v in OPENER_THEOREMS.items() if v}
 
 
 def openers():
@@ -350,18 +374,26 @@ def model_outcome(ctx, name, L, data):
     if r == "fuel":
         return "timeout", None
     if r.startswith("raise "):
-        return r[6:].split(":")[0], None
+        n = r[6:].split(":")[0]
+        return L.get("rename", {}).get(n, n), None
     return r, None
 
 
 def corr_case(ctx, name, L, data, origin, state):
-    if len(data) > L.get("max_len", MODEL_MAX):
+    if origin != "sweep" and len(data) > L.get("max_len", MODEL_MAX):
         data = data[-L.get("max_len", MODEL_MAX):] if L.get("cut") == "tail" else data[:L.get("max_len", MODEL_MAX)]
     key = (name, data)
     if key in state["seen"]:
         return
     state["seen"].add(key)
-    io_, ic, site = impl_outcome(L, data)
+    # a loader that has started to hang is given a short leash, and is dropped after a few more timeouts
+    nto = state["timeouts"].get(name, 0)
+    if nto >= 4:
+        ctx.count("corr-skipped-after-timeouts:" + name)
+        return
+    io_, ic, site = impl_outcome(L, data, 5.0 if nto == 0 else 1.0)
+    if io_ == "timeout":
+        state["timeouts"][name] = nto + 1
     mo, mc = model_outcome(ctx, name, L, data)
     ctx.corr_cases += 1
     ctx.count("corr:%s:%s" % (name, io_))
@@ -388,7 +420,7 @@ def correspondence(ctx, n):
     samples = dict(sd)
     blobs = [d for _, d in sd]
     R = random.Random(ctx.seed * 7919 + 4)
-    state = {"seen": set(), "viol": set(), "dis": {}}
+    state = {"seen": set(), "viol": set(), "dis": {}, "timeouts": {}}
     for name, L in c04_loaders.LOADERS.items():
         t0 = time.time()
         own = [(k, d) for k, d in sd if L["own"](k)] + [("extra%d" % i, d) for i, d in enumerate(L.get("seeds", []))]
@@ -436,7 +468,7 @@ def vm_crosscheck(ctx, sd, R):
             return
         code = int(m.group(1))
         lst = [int(x) for x in m.group(2).split(";") if x.strip()]
-        vm = ("ok", L["expect"](lst, d)) if code == 0 else ("timeout" if code == 15 else EXC_CODES[code], None)
+        vm = ("ok", L["expect"](lst, d)) if code == 0 else ("timeout" if code == 15 else L.get("rename", {}).get(EXC_CODES[code], EXC_CODES[code]), None)
         if vm != model_outcome(ctx, name, L, d):
             ctx.disagree("c04.vm_shard", "extracted binary and vm_compute differ for %s on %s" % (name, d.hex()), {})
             return
@@ -462,16 +494,19 @@ def search(ctx, broken):
         if len(ctx.violations) > before:
             ctx.notes["search"] = "escalated correspondence stream found %d escape sites" % (len(ctx.violations) - before)
             return
+    import c04_struct
+    c04_struct.run_structured(ctx, stride=1)
     fuzz(ctx, 20000, True)
-    ctx.notes["search"] = "mutation fuzzing of all openers found %d distinct escape sites" % (len(ctx.violations) - before)
+    ctx.notes["search"] = "structured + mutation fuzzing of all openers found %d distinct escape sites" % (len(ctx.violations) - before)
 
 
 def replay(ctx, payload):
     d = payload.get("data", {})
     ops = openers()
     if d.get("runner") == "c04.load":
-        o, _, _ = impl_outcome(c04_loaders.LOADERS[d["loader"]], bytes.fromhex(d["input"]))
-        return o not in ("ok", "MutagenError")
+        L = c04_loaders.LOADERS[d["loader"]]
+        o, _, _ = impl_outcome(L, bytes.fromhex(d["input"]))
+        return o not in ("ok", "MutagenError") + tuple(L.get("allowed", ()))
     if d.get("runner") == "c04.fuzz" and d.get("input") is not None:
         probs, _, _, _ = contract(ops[d["opener"]], bytes.fromhex(d["input"]))
         return bool(probs)
